@@ -139,6 +139,76 @@ static void do_permchain(vh::Out &o, long long ci, const std::vector<std::string
     }
 }
 
+// iterate ONE entry point on its own result, with no other call of that entry point in between (an entry point that
+// remembers anything about its previous call - last block, last result, a pointer - is exercised by exactly this history):
+// variant 0 = scalar in place, 1 = AVX2 in place, 2 = AVX2 ping-pong between two buffers, 3 = AVX512 in place (two slots
+// carrying the same state).  The reference chain is the scalar out-of-place call, computed before (order 0) or after (1).
+static void do_permiter(vh::Out &o, long long ci, const std::vector<std::string> &t)
+{
+    int k = atoi(t[1].c_str()), variant = atoi(t[2].c_str()), order = atoi(t[3].c_str());
+    if (k < 1 || k > 16)
+        k = 4;
+    uint64_t a[12];
+    for (int i = 0; i < 12; i++)
+        a[i] = vh::parse_u64(t[4 + i]);
+    std::vector<uint64_t> outs(12 * k), ref(12 * k);
+    auto refchain = [&]() {
+        E cur[12], nxt[12];
+        memcpy(cur, a, 96);
+        for (int s = 0; s < k; s++)
+        {
+            PoseidonGoldilocks::hash_full_result_seq(nxt, cur);
+            memcpy(&ref[12 * s], nxt, 96);
+            memcpy(cur, nxt, 96);
+        }
+    };
+    if (order == 0)
+        refchain();
+    {
+        E st[12], other[12];
+        memcpy(st, a, 96);
+#ifdef __AVX512__
+        E st2[24];
+        for (int i = 0; i < 12; i++)
+            st2[8 * (i / 4) + (i % 4)].fe = st2[8 * (i / 4) + 4 + (i % 4)].fe = a[i];
+#endif
+        for (int s = 0; s < k; s++)
+        {
+            if (variant == 0)
+                PoseidonGoldilocks::hash_full_result_seq(st, st);
+            else if (variant == 1)
+                PoseidonGoldilocks::hash_full_result(st, st);
+            else if (variant == 2)
+            {
+                PoseidonGoldilocks::hash_full_result(other, st);
+                memcpy(st, other, 96);
+            }
+#ifdef __AVX512__
+            else if (variant == 3)
+            {
+                PoseidonGoldilocks::hash_full_result_avx512(st2, st2);
+                for (int i = 0; i < 12; i++)
+                    st[i].fe = (s % 2) ? st2[8 * (i / 4) + 4 + (i % 4)].fe : st2[8 * (i / 4) + (i % 4)].fe;
+            }
+#endif
+            else
+                PoseidonGoldilocks::hash_full_result_seq(st, st);
+            memcpy(&outs[12 * s], st, 96);
+        }
+    }
+    if (order != 0)
+        refchain();
+    o.begin("iter");
+    o.num("ci", ci);
+    o.num("k", k);
+    o.num("variant", variant);
+    o.num("order", order);
+    o.w64arr("in", a, 12);
+    o.w64arr("outs", outs.data(), outs.size());
+    o.w64arr("ref", ref.data(), ref.size());
+    o.end();
+}
+
 static void fill(std::vector<uint64_t> &v, uint64_t seed)
 {
     vh::Rng r(seed);
@@ -269,6 +339,8 @@ static void do_case(vh::Out &o, long long ci, const std::vector<std::string> &t)
         do_perm(o, ci, t);
     else if (t[0] == "permchain")
         do_permchain(o, ci, t);
+    else if (t[0] == "permiter")
+        do_permiter(o, ci, t);
     else if (t[0] == "lh")
         do_lh(o, ci, vh::parse_u64(t[1]), vh::parse_u64(t[2]));
     else if (t[0] == "mt")
